@@ -405,7 +405,14 @@ def run(rep, repo, tier):
         'the RFC 4648 bit slices; the url-safe variant applies inverse character maps and calls the matching codec.')
     rep.assumptions += ['little-endian target (the lane macros of access.h are selected by __BYTE_ORDER__)',
                         'base64 sextets are < 64 (only alphabet characters reach the regrouping)']
-    mod = witness('w_hexascii.c', repo)
+    # callees are folded into their callers (uint64_to_hex may be written as eight uint8_to_hex calls): every function of the
+    # header stays defined through the witness's use table, so each is still analysed on its own
+    def keep(name, dem, internal, in_main):
+        # the width converters may be written in terms of each other (uint64_to_hex as eight uint8_to_hex calls): they are
+        # folded into their callers; the digit maps half2hex/hex2half/hex2byte, which the lane rules look for, stay calls
+        import re
+        return not re.fullmatch(r'(uint(8|16|32|64)_to_hex|hex_to_uint(8|16|32|64))', name)
+    mod = witness('w_hexascii.c', repo, inline=keep)
     rep.units.append('witness/w_hexascii.c -> igris/util/hexascii.h, access.h')
     specs = {
         'half2hex': FnSpec(pre=['n <= 15'], post=[
